@@ -140,6 +140,7 @@ def quota_profiles3(ns, np_, nl, lect):
     P.append(("target-in", two_p, lec(0, 2, 3)))
     P.append(("leclq1", two_p, lec(1, 1, 2)))
     P.append(("plast-lq1uq2", unit_p[:-1] + ((1, 2),), lec(0, 1, 3)))
+    P.append(("p1lq2uq3", ((2, 3),) + two_p[1:], lec(0, 2, 3)))
     return P
 
 
@@ -151,6 +152,7 @@ def quota_profiles2(ns, nh):
     P.append(("h1lq1", ((1, 1),) + tuple((0, 1) for _ in range(nh - 1))))
     P.append(("h1zero", ((0, 0),) + tuple((0, 2) for _ in range(nh - 1))))
     P.append(("lq1uq2", tuple((1, 2) for _ in range(nh))))
+    P.append(("h1lq2uq3", ((2, 3),) + tuple((0, 2) for _ in range(nh - 1))))
     return P
 
 
@@ -264,6 +266,32 @@ def family_HR(two_sided, full_quotas=False, sizes=None):
             else:
                 for name, pq in quota_profiles2(ns, nh):
                     yield make2(ns, nh, sprefs, lprefs, pq)
+
+
+def family_W(big=True):
+    """Multi-digit ids: 12 projects (2 students) and 11 students (2 projects).
+    big=False leaves out the 11-student instances."""
+    out = []
+    lists = [w for sub in ((1,), (10,), (12,), (1, 10), (10, 12), (2, 11), (1, 10, 12))
+             for w in weak_orders(sub)]
+    lect = tuple(1 if p <= 6 else 2 for p in range(1, 13))
+    for a in lists:
+        for b in lists[::3]:
+            sprefs = (a, b)
+            lprefs = tuple(weak_orders(acceptable_students(sprefs, lect, k))[-1]
+                           for k in (1, 2))
+            out.append(make3(2, 12, 2, sprefs, lect, lprefs,
+                             tuple((0, 1) for _ in range(12)), ((0, 1, 2), (0, 1, 2))))
+            hl = tuple(weak_orders(acceptable_students(sprefs, tuple(range(1, 13)), k))[-1]
+                       for k in range(1, 13))
+            out.append(make2(2, 12, sprefs, hl, tuple((0, 1) for _ in range(12))))
+    if big:
+        sprefs = tuple(((1 + (i % 2),),) for i in range(11))
+        lp = tuple(weak_orders(acceptable_students(sprefs, (1, 2), k))[7] for k in (1, 2))
+        out.append(make3(11, 2, 2, sprefs, (1, 2), lp, ((0, 6), (0, 6)),
+                         ((0, 3, 6), (0, 3, 6))))
+        out.append(make2(11, 2, sprefs, lp, ((0, 6), (0, 6))))
+    return out
 
 
 # --------------------------------------------------------------------------
